@@ -39,8 +39,8 @@ def nop(v, tables):
     return bytes([n, 0]) if v >= (3, 6) else bytes([n])
 
 
-def make_code(rng, v, tables):
-    """Return (co_code bytes, description)."""
+def make_code(rng, v, tables, force_sled=None):
+    """Return (co_code bytes, description).  force_sled: length (in instructions) of a jumped-over sled that must be present."""
     ops = pick_ops(tables)
     parts = []
     desc = []
@@ -57,8 +57,8 @@ def make_code(rng, v, tables):
             parts.append(nop(v, tables) * rng.randrange(1, 4))
             desc.append("nop")
     # a forward jump over a sled, long enough to need EXTENDED_ARG now and then
-    if "JUMP_FORWARD" in tables["opmap"] and rng.random() < 0.6:
-        sled_units = rng.choice([1, 3, 130, 300, 70000 if rng.random() < 0.2 else 40])
+    if "JUMP_FORWARD" in tables["opmap"] and (force_sled or rng.random() < 0.6):
+        sled_units = force_sled or rng.choice([1, 3, 130, 300, 70000 if rng.random() < 0.2 else 40])
         one = nop(v, tables)
         sled = one * sled_units
         dist = len(sled)
